@@ -251,8 +251,9 @@ impl Check for C07Check {
         if index % 499 == 77 {
             // (one or two per quick run, a hundred per thorough run)
             let n_entries = match tier {
-                Tier::Quick => 12_000_000,
-                Tier::Thorough => *r.pick(&[12_000_000u64, 16_000_000, 20_000_000]),
+                // (beyond 2^24 entries in some of them)
+                Tier::Quick => *r.pick(&[12_000_000u64, 17_000_000]),
+                Tier::Thorough => *r.pick(&[12_000_000u64, 16_777_217, 17_000_000, 20_000_000]),
             };
             return serde_json::to_value(Scn::LongRun { n_entries, seed: r.next_u64(), pieces: r.usize(2, 5) as u32, scaler_at_end: r.chance(1, 2) }).unwrap();
         }
